@@ -332,7 +332,7 @@ func checkWordCounterSplits(p *core.Program, r *core.Report, rule string) {
 		if fn.Name() != "Count" || core.FnPkgPath(fn) != core.ExpandKey("mod/internal/stringutil") {
 			continue
 		}
-		for _, call := range core.Calls(fn, func(ci ssa.CallInstruction) bool {
+		for _, call := range core.Calls(p.Inlined(fn), func(ci ssa.CallInstruction) bool {
 			return core.IsCallTo(ci, "(*regexp.Regexp).FindAllString", "(*regexp.Regexp).FindAllStringIndex")
 		}) {
 			rx := c.Of(call.Common().Args[0])
